@@ -4,7 +4,8 @@
    The theorems are about the REAL statement type and the REAL interpreter model (Model/Interp.v exec) on the code that
    [compile] produces; [compile] is the lowering of parse_script for this fragment (if / elif / else chains with the
    endif retargeting, while as it is lowered, break, continue, sequencing, assignment, expression statement, return),
-   tied to the parser model on every run by the check (parse_script (printed text) = compile tree, inside Coq).
+   PROVED equal to the parser model's pure lowering step folded over the tree's line kinds (C01_compile_is_the_parser_lowering,
+   C01_parse_is_compile); that the printed text classifies to those kinds is decided per case inside Coq by the check.
 
    PARTIAL, named: (1) `for` is not in the proved fragment (it needs the library contracts of arrayLength/arrayGet and the
    reserved temporaries) - decided by the check only; (2) `continue` inside `while` is excluded by the hypothesis [guard]:
@@ -14,7 +15,7 @@
    does not read the statement counter (no library function reads options['statementCount']). *)
 From Coq Require Import List.
 From BS Require Import Model.Base Model.Num Model.Arith Model.ExprParser Model.Script Model.Interp Model.LibCore Model.RunC01
-                       Proofs.Fuel Proofs.C01 Proofs.C01b Proofs.C07.
+                       Model.ScriptX Model.Lower Proofs.Fuel Proofs.C01 Proofs.C01b Proofs.C01c Proofs.C01d Proofs.C07.
 
 Lemma real_lab_inj : forall k n k' n', real_lab k n = real_lab k' n' -> k = k' /\ n = n'.
 Proof.
@@ -56,6 +57,28 @@ Theorem C01_simulation_partial : forall cfg, c_max cfg = 0%Z ->
     Run cfg lib url_rel lint_lines um (fst (compile real_lab None n s)) 0 loc wm (out, loc', wm').
 Proof. intros cfg Hunl lib url_rel lint_lines Hlib um Hb. exact (scope_sim cfg Hunl lib url_rel lint_lines Hlib um real_lab real_lab_inj Hb). Qed.
 Print Assumptions C01_simulation_partial.
+
+(* [compile] IS the parser's lowering: folding the parser's pure lowering step (Model/Lower.v kstep; Props/C07.v proves
+   pstep = classify ; kstep) over the line kinds of a tree, from the parser's initial state and whatever the line numbers and
+   texts are, appends exactly compile(tree), and leaves no open block *)
+Theorem C01_compile_is_the_parser_lowering : forall ann s, wf false s = true -> guard s = true ->
+  kfold ann 0 ps_init (kinds s) = ROk (gstate (fst (compile real_lab None 0 s)) 0 [] (snd (compile real_lab None 0 s))).
+Proof. intros ann s Hwf Hg. exact (lowering_of_a_scope ann s Hwf (guard_wf_no_continue s Hwf Hg)). Qed.
+Print Assumptions C01_compile_is_the_parser_lowering.
+
+(* ... hence: whenever the logical lines of a text classify (statement regexes + expression parser) to the line kinds of the
+   tree, the parser model's result for that text is compile(tree).  (That the PRINTED text of a tree classifies to its kinds is
+   the regex-level fact the check decides per case inside Coq: Model/RunC01.v check_lowering.) *)
+Theorem C01_parse_is_compile : forall lines start s lls ls',
+  wf false s = true -> guard s = true ->
+  llines lines 0 {| l_cont := []; l_ix := 0 |} = (lls, LDone ls') -> l_cont ls' = [] ->
+  Forall2 (fun il k => classify (start + fst il) (snd il) = ROk k) lls (kinds s) ->
+  match ploop lines 0 {| l_cont := []; l_ix := 0 |} ps_init start with
+  | ROk (ls, ps) => pfinish ls ps start
+  | RErr e => RErr e | RHost w => RHost w | RFuel => RFuel
+  end = ROk (fst (compile real_lab None 0 s)).
+Proof. exact parse_is_compile. Qed.
+Print Assumptions C01_parse_is_compile.
 
 (* the structured reading is executable: a sound interpreter for SExec (run inside Coq against the implementation by the check) *)
 Theorem C01_structured_interpreter_sound : forall cfg lib url_rel lint_lines um fuel s st o st',
